@@ -41,6 +41,42 @@ func genBody(seed, off, n int) []byte {
 	return b
 }
 
+// A body of the line protocol is named by a seed specification: `<seed>` — byte i is bodyByte(seed, i) — or
+// `<s1>:<k>:<s2>` — bytes [0, k) are those of body(s1), byte i >= k is bodyByte(s2, i): a representation that SHARES its
+// first k bytes (whole blocks, when k is a multiple of the block size) with body(s1) and differs from it afterwards.
+type seedSpec struct{ s1, k, s2 int }
+
+func parseSeed(s string) (seedSpec, bool) {
+	f := strings.Split(s, ":")
+	switch len(f) {
+	case 1:
+		v, err := strconv.Atoi(f[0])
+		return seedSpec{v, 0, v}, err == nil && v >= 0
+	case 3:
+		a, e1 := strconv.Atoi(f[0])
+		k, e2 := strconv.Atoi(f[1])
+		b, e3 := strconv.Atoi(f[2])
+		return seedSpec{a, k, b}, e1 == nil && e2 == nil && e3 == nil && a >= 0 && k >= 0 && b >= 0
+	}
+	return seedSpec{}, false
+}
+
+func genBodySpec(spec string, off, n int) []byte {
+	sp, ok := parseSeed(spec)
+	if !ok {
+		panic("bad seed specification " + spec)
+	}
+	b := make([]byte, n)
+	for j := range b {
+		if off+j < sp.k {
+			b[j] = bodyByte(sp.s1, off+j)
+		} else {
+			b[j] = bodyByte(sp.s2, off+j)
+		}
+	}
+	return b
+}
+
 func fnv(b []byte) uint64 {
 	h := uint64(0xcbf29ce484222325)
 	for _, x := range b {
@@ -260,6 +296,7 @@ type world struct {
 	regs    map[string]wmsg         // "A/7" -> registered message
 	waiters map[string]chan wmsg    // token handlers of pending Do calls of A
 	cancels []context.CancelFunc
+	doCancel map[string]context.CancelFunc // `do <tok> -`: calls without a deadline, ended by `cancel <tok>`
 	connCtx context.Context // the connections' context: cancelled when the case ends
 	// observations (`observe <side> <tok>`): what the layer's getSentRequestFromOutside serves; B's default resource
 	// (`resource …`): how B's application answers a request whose token has no registered answer; the token source
@@ -488,7 +525,7 @@ func (w *world) sizes() string {
 func (w *world) apply(f []string) (done bool) {
 	switch f[0] {
 	case "reg":
-		m := wmsg{code: atoi(f[3]), etag: parseEtag(f[6]), other: parseOther(f[7]), body: genBody(atoi(f[5]), 0, atoi(f[4]))}
+		m := wmsg{code: atoi(f[3]), etag: parseEtag(f[6]), other: parseOther(f[7]), body: genBodySpec(f[5], 0, atoi(f[4]))}
 		m.tok = f[2]
 		w.mu.Lock()
 		w.regs[f[1]+"/"+f[2]] = m
@@ -517,7 +554,7 @@ func (w *world) apply(f []string) (done bool) {
 		w.tokens.mu.Unlock()
 		w.log("ok")
 	case "resource":
-		m := wmsg{code: atoi(f[1]), etag: parseEtag(f[4]), other: parseOther(f[5]), body: genBody(atoi(f[3]), 0, atoi(f[2]))}
+		m := wmsg{code: atoi(f[1]), etag: parseEtag(f[4]), other: parseOther(f[5]), body: genBodySpec(f[3], 0, atoi(f[2]))}
 		w.mu.Lock()
 		w.resource = &m
 		w.mu.Unlock()
@@ -531,7 +568,17 @@ func (w *world) apply(f []string) (done bool) {
 			w.log("bad-op")
 			return
 		}
-		ctx, cancel := context.WithTimeout(context.Background(), time.Duration(atoi(f[2]))*time.Millisecond)
+		var ctx context.Context
+		var cancel context.CancelFunc
+		if f[2] == "-" {
+			// a call without a deadline: it ends with its response or when the application gives up (`cancel <tok>`)
+			ctx, cancel = context.WithCancel(context.Background())
+			w.mu.Lock()
+			w.doCancel[tok] = cancel
+			w.mu.Unlock()
+		} else {
+			ctx, cancel = context.WithTimeout(context.Background(), time.Duration(atoi(f[2]))*time.Millisecond)
+		}
 		w.cancels = append(w.cancels, cancel)
 		req := reg.build(ctx)
 		go func() {
@@ -563,6 +610,15 @@ func (w *world) apply(f []string) (done bool) {
 			}
 			w.log(fmt.Sprintf("ret %s ok %s", tok, snapshot(resp).String()))
 		}()
+	case "cancel":
+		// the application of A abandons its pending call without a deadline (its context is cancelled)
+		w.mu.Lock()
+		cancel, ok := w.doCancel[f[1]]
+		delete(w.doCancel, f[1])
+		w.mu.Unlock()
+		if ok {
+			cancel()
+		}
 	case "write":
 		e := w.side(f[1])
 		w.mu.Lock()
@@ -614,7 +670,7 @@ func (w *world) apply(f []string) (done bool) {
 		}
 	case "inject":
 		m := wmsg{code: atoi(f[2]), tok: f[3], b1: parseBlk(f[4]), b2: parseBlk(f[5]), s1: parseU32(f[6]), s2: parseU32(f[7]),
-			etag: parseEtag(f[8]), other: parseOther(f[9]), body: genBody(atoi(f[10]), atoi(f[11]), atoi(f[12]))}
+			etag: parseEtag(f[8]), other: parseOther(f[9]), body: genBodySpec(f[10], atoi(f[11]), atoi(f[12]))}
 		w.recv(w.side(f[1]), m)
 	case "sleep":
 		time.Sleep(time.Duration(atoi(f[1])) * time.Millisecond)
@@ -638,7 +694,7 @@ func (w *world) apply(f []string) (done bool) {
 	return false
 }
 
-var arity = map[string]int{"observe": 3, "fresh": 2, "resource": 6, "reg": 8, "do": 3, "write": 3, "inject": 13, "sleep": 2, "tick": 2, "settle": 1, "end": 1}
+var arity = map[string]int{"cancel": 2, "observe": 3, "fresh": 2, "resource": 6, "reg": 8, "do": 3, "write": 3, "inject": 13, "sleep": 2, "tick": 2, "settle": 1, "end": 1}
 
 func wellFormed(f []string) bool {
 	if len(f) == 0 {
@@ -648,13 +704,19 @@ func wellFormed(f []string) bool {
 		return len(f) == 2 && (f[1] == "deliver" || f[1] == "dup" || f[1] == "drop" || f[1] == "swap") || len(f) == 3 && f[1] == "replay"
 	}
 	n, ok := arity[f[0]]
-	return ok && len(f) == n
+	if !ok || len(f) != n {
+		return false
+	}
+	if at, has := map[string]int{"reg": 5, "resource": 3, "inject": 10}[f[0]]; has {
+		_, ok = parseSeed(f[at])
+	}
+	return ok
 }
 
 func runCase(t *testing.T, cfg []string, ops [][]string) []string {
 	out := make([]string, len(ops))
 	synctest.Test(t, func(t *testing.T) {
-		w := &world{regs: map[string]wmsg{}, waiters: map[string]chan wmsg{}, observed: map[string]bool{}, tokens: &tokenSource{}}
+		w := &world{doCancel: map[string]context.CancelFunc{}, regs: map[string]wmsg{}, waiters: map[string]chan wmsg{}, observed: map[string]bool{}, tokens: &tokenSource{}}
 		savedReader := crand.Reader
 		crand.Reader = w.tokens
 		defer func() { crand.Reader = savedReader }()
